@@ -5,6 +5,7 @@
 -/
 import Scico.Proofs.StepsOpial
 import Scico.Proofs.StepsOpial2
+import Scico.Proofs.StepsOpial3
 import Scico.Proofs.StepsExamples
 
 set_option linter.unusedSectionVars false
@@ -47,5 +48,24 @@ theorem exLADMM_kkt [FiniteDimensional ℝ X] (y0 : X) : IsLKKT (exLADMM y0) (ha
     simpa [exLADMM] using this
   · have := zeroFn_subgrad (E := X) y0
     simpa [exLADMM] using this
+
+/-- ProximalADMM instance with STRICT constraints (`A = I`, `B = −I`, `c = 0`, `ρ = 1`, `μ = ν = 2 > 1 = ‖A‖² = ‖B‖²`) for
+    `padmm_converges_findim`; KKT point `(y0, y0, y0, 0)` -/
+noncomputable def exPADMM2 (y0 : X) : PADMMParams ℝ X X X :=
+  { exPADMM y0 with mu := 2, nu := 2 }
+
+theorem exPADMM2_conv [FiniteDimensional ℝ X] (y0 : X) : PADMMConvHyp (exPADMM2 y0) (halfSq y0) zeroFn 1 1 := by
+  refine ⟨by norm_num [exPADMM2, exPADMM], by norm_num [exPADMM2], by norm_num [exPADMM2], fun _ _ => rfl,
+    fun x y => by simp [exPADMM2, exPADMM, add_comm], fun _ _ => rfl,
+    fun w z => by simp [exPADMM2, exPADMM, inner_neg_left, inner_neg_right], isProx_halfsq y0, isProx_zero,
+    by norm_num, by norm_num, fun a => by simp [exPADMM2, exPADMM], fun b => by simp [exPADMM2, exPADMM],
+    by norm_num [exPADMM2], by norm_num [exPADMM2]⟩
+
+theorem exPADMM2_kkt [FiniteDimensional ℝ X] (y0 : X) : IsPKKT (exPADMM2 y0) (halfSq y0) zeroFn (y0, y0, y0, 0) := by
+  refine ⟨rfl, by simp [exPADMM2, exPADMM], ?_, ?_⟩
+  · have := halfSq_subgrad y0 y0
+    simpa [exPADMM2, exPADMM] using this
+  · have := zeroFn_subgrad (E := X) y0
+    simpa [exPADMM2, exPADMM] using this
 
 end Scico.Steps
